@@ -85,6 +85,14 @@ def digest_obj(o):
 def make_plane(lentil, act, arg):
     if act == 'MulType':
         return lentil.Plane(ptype=arg)
+    if act == 'MulTypedTilt':
+        TILTS[0] += 1
+        with warnings.catch_warnings():
+            warnings.simplefilter('ignore', DeprecationWarning)
+            k_ = TILTS[0] % 3
+            if k_ == 0:
+                return lentil.Tilt(x=0.1, y=-0.1, ptype=arg)
+            return (lentil.DispersiveTilt if k_ == 1 else lentil.Grism)(trace=[1.0, 0.0], dispersion=[1.0, 1.0], ptype=arg)
     with warnings.catch_warnings():
         warnings.simplefilter('ignore', DeprecationWarning)
         if arg == 'Plane':
@@ -205,8 +213,8 @@ def check_programs(ctx, lentil, progs, doc):
                     wprev = s['exp']
             if st['act'] == 'MulClass':
                 sig = {'kind': what, 'act': 'MulClass', 'class': st['arg'], 'wavefront': wprev, 'observed': obs}
-            elif st['act'] == 'MulType':
-                sig = {'kind': what, 'act': 'MulType', 'cell': [wprev, st['arg']], 'observed': obs}
+            elif st['act'] in ('MulType', 'MulTypedTilt'):
+                sig = {'kind': what, 'act': st['act'], 'cell': [wprev, st['arg']], 'observed': obs}
             else:
                 sig = {'kind': what, 'act': st['act'], 'arg': st['arg'], 'wavefront': wprev, 'observed': obs}
             ctx.violation(sig, {'program': prog, 'step': i, 'expected': exp, 'observed': obs},
@@ -223,11 +231,11 @@ def run(ctx):
     try:
         L = 3
         res = run_tlc('MC_C08', env={'C08_DOC': docfile, 'C08_LEN': L}, workers=1, coverage=True, timeout=300)
-        nstep = 5 + len(doc['classes']) + 2
+        nstep = 5 + len(doc['classes']) + 5 + 2
         if len(res.emits) != 3 * nstep ** L:
             raise TLCError(f'expected {3 * nstep ** L} programs, TLC emitted {len(res.emits)}')
         ctx.add_tlc(res, f'MC_C08 exhaustive L={L}')
-        ctx.require_coverage(res, ['DoMulType', 'DoMulClass', 'DoPropagate'])
+        ctx.require_coverage(res, ['DoMulType', 'DoMulClass', 'DoMulTypedTilt', 'DoPropagate'])
         progs = res.emits
         ctx.exhaustive = True
         if ctx.tier == 'thorough':
